@@ -123,6 +123,13 @@ let op_delta_prefix = function
       ^ "\t" ^ string_of_int (L.length (Delta.plus_lines s))
   | _ -> "BADARGS"
 
+(* delta_sides tabs lbs lines : the side condition of the order theorems (unified view) *)
+let op_delta_sides = function
+  | [ tabs; lbs; lines ] ->
+      let c = delta_cfg "0" tabs lbs in
+      if DeltaOrder.sidesb c Delta.init (Delta.number_from O (lines_of_arg lines)) then "true" else "false"
+  | _ -> "BADARGS"
+
 (* blame_run n keys gitflags *)
 let op_blame_run = function
   | [ n; keys; flags ] ->
@@ -145,6 +152,7 @@ let op_blame_spec = function
 let dispatch = function
   | "delta_run" :: args -> op_delta_run args
   | "delta_prefix" :: args -> op_delta_prefix args
+  | "delta_sides" :: args -> op_delta_sides args
   | "blame_run" :: args -> op_blame_run args
   | "blame_spec" :: args -> op_blame_spec args
   | "ping" :: _ -> "pong"
